@@ -8,6 +8,7 @@
   plus everything lost for good; `Acct.dfree` counts releases of something already released.
 -/
 import SfProofs.Ledger
+import SfModel.LedgerCalls
 namespace Sf.C16
 open Sf.Ledger
 
@@ -128,5 +129,80 @@ example : (clear .fileFd (alloc .fileFd ({}, {}))).2.leakedFd = 1 := by decide  
 -- a handle whose gsm state is live but whose close hook is missing would leak at close (the invariant is needed):
 example : (retire (releaseAll (alloc (.nested .gsmState) ({}, {})))).leakedHeap = 1 := by decide
 example : (step { h := some {} } (.close false)).2 = -1 := by decide
+
+
+/-! ### several handles at once -/
+
+/-- **multi_close_releases_all.**  For every history over any number of handles (each call names its handle; opens, calls and closes of
+    different handles interleave freely): nothing is ever lost or released twice, and when no handle is open nothing is held. -/
+theorem multi_close_releases_all (ops : List (Nat × Op)) :
+    (runAt {} ops).a = {} ∧ ((runAt {} ops).hs = [] → ∀ k, (runAt {} ops).held k = 0) := by
+  have hw := runAt_WsInv WsInv_init ops
+  refine ⟨hw.1, ?_⟩
+  intro hnil k
+  unfold Worlds.held
+  rw [hnil, hw.1]
+  cases k <;> rfl
+
+/-- **handles_isolated.**  A call on handle i leaves every other handle's ledger exactly as it was. -/
+theorem handles_isolated (w : Worlds) (i j : Nat) (op : Op) (hne : j ≠ i) : (stepAt w i op).1.get j = w.get j := by
+  unfold stepAt
+  exact get_set_other w i j _ _ hne
+
+-- two handles open at once: a WAV writer with a chunk and an ALAC writer; closing one leaves the other's holdings in place
+example : (runAt {} [(0, .open wavFloatW), (1, .open alacW), (0, .setChunk true)]).held .heap = 6 + 6 := by decide
+example : (runAt {} [(0, .open wavFloatW), (1, .open alacW), (0, .setChunk true), (1, .close true)]).held .heap = 6 := by decide
+example : (runAt {} [(0, .open wavFloatW), (1, .open alacW), (0, .close true), (1, .close true)]).hs = [] := by decide
+
+/-! ### call-dispatch rules repaired after the campaign found them (KF-C16-dither-twice, KF-C16-aiff-ima-seek-write) -/
+
+open Sf.Ledger.Calls in
+/-- what every history of dither commands keeps true under the current rule -/
+def DitherGood (s : Sf.Ledger.Calls.Slot) : Prop :=
+  (s.saved = none ∨ s.saved = some .codec) ∧ (s.cur = .wrapper → s.saved = some .codec)
+
+open Sf.Ledger.Calls in
+theorem dither_good_step (twice : Bool) (s : Sf.Ledger.Calls.Slot) (h : DitherGood s) (c : Cmd) :
+    DitherGood (applyCmd installNew twice s c) := by
+  obtain ⟨cur, saved⟩ := s
+  cases c <;> cases twice <;> cases cur <;> rcases h with ⟨h1 | h1, h2⟩ <;>
+    simp_all [DitherGood, applyCmd, installNew, restore]
+
+open Sf.Ledger.Calls in
+/-- **dither_write_terminates.**  Under the current rule of dither_init, after every sequence of SFC_SET_DITHER_ON_WRITE commands
+    (dither on / off, in any order, any number of times, also for the entry point a float file handles twice) a write call reaches
+    the codec after at most one wrapper. -/
+theorem dither_write_terminates (twice : Bool) (cmds : List Cmd) :
+    callDepth (runCmds installNew twice cmds) = some 0 ∨ callDepth (runCmds installNew twice cmds) = some 1 := by
+  have hg : ∀ (cmds : List Cmd) (s : Sf.Ledger.Calls.Slot), DitherGood s → DitherGood (cmds.foldl (applyCmd installNew twice) s) := by
+    intro cmds
+    induction cmds with
+    | nil => intro s h; exact h
+    | cons c rest ih => intro s h; exact ih _ (dither_good_step twice s h c)
+  have h := hg cmds {} ⟨Or.inl rfl, by intro h; cases h⟩
+  unfold runCmds
+  generalize cmds.foldl (applyCmd installNew twice) {} = s at h
+  obtain ⟨cur, saved⟩ := s
+  cases cur
+  · left; rfl
+  · right; have := h.2 rfl; simp at this; subst this; rfl
+
+open Sf.Ledger.Calls in
+/-- the rule before the repair: enabling twice — or once on the doubly handled entry point — makes the wrapper call itself -/
+theorem dither_write_old_rule :
+    callDepth (runCmds installOld false [.on, .on]) = none ∧ callDepth (runCmds installOld true [.on]) = none := by decide
+
+open Sf.Ledger.Calls in
+/-- **aiff_ima_seek_never_calls_null** (current rule), and the old rule's failure -/
+theorem aiff_ima_seek_never_calls_null (a b : Bool) : aiffImaSeek0New a b ≠ .callsNull := by
+  cases a <;> cases b <;> decide
+
+open Sf.Ledger.Calls in
+theorem aiff_ima_seek_old_rule : aiffImaSeek0Old false true = .callsNull := by decide
+
+open Sf.Ledger.Calls in
+example : callDepth (runCmds installNew true [.on, .on, .off, .on]) = some 1 := by decide
+open Sf.Ledger.Calls in
+example : aiffImaSeek0New false true = .badSeek ∧ aiffImaSeek0New true false = .ok := by decide
 
 end Sf.C16
